@@ -17,10 +17,10 @@ ASSUMPTIONS = ["an upload error reply makes the library raise by design; the rai
                "small generation batches (the statement's quantifier); the production batch (812) is used in a few thorough histories",
                "histories are sampled"]
 REQUIRED = ["histories", "checkpoints", "uploads_seen", "keys_offered", "keys_confirmed", "unconfirmed_uploads", "reoffers_seen",
-            "keys_consumed", "replays", "restarts", "signatures_verified", "error_replies"]
+            "keys_consumed", "replays", "restarts", "signatures_verified", "error_replies", "overlap_cases"]
 TIMEOUT = {"quick": 600, "thorough": 7200}
 
-EVENTS = ["login", "ask-keys", "ask-keys-lost-reply", "ask-keys-error", "disconnect", "restart", "peer-first-message", "replay-first-message",
+EVENTS = ["login", "ask-keys", "ask-keys-overlap", "ask-keys-lost-reply", "ask-keys-error", "disconnect", "restart", "peer-first-message", "replay-first-message",
           "login-lost-reply", "server-closes"]
 
 
@@ -188,6 +188,27 @@ def one_history(acc, seed, tag, batch=None):
                     run_actions([])
                 elif ev == "ask-keys-error":
                     nontriv = True
+            elif ev == "ask-keys-overlap":
+                # the server asks again while the previous upload is still unanswered; the results arrive afterwards
+                if not c.ready():
+                    continue
+                W.server.delay_upload_reply.add(A)
+                k = r.choice([2, 2, 3])
+                for _ in range(k):
+                    W.server.ask_for_keys(A, r.randint(0, 5))
+                    run_actions([])
+                W.server.delay_upload_reply.discard(A)
+                held = len(W.server.delayed_results.get(A, []))
+                acc.count("overlapping_uploads", held)
+                if held >= 2:
+                    nontriv = True
+                    acc.count("overlap_cases")
+                mode = r.choice(["fifo", "fifo", "lifo", "lose-last"])
+                W.server.release_upload_replies(A, "lifo" if mode == "lifo" else "fifo", keep_last=1 if mode == "lose-last" else 0)
+                run_actions([])
+                if mode == "lose-last":
+                    W.server_close(A)
+                    run_actions([])
             elif ev == "disconnect":
                 if c.connected:
                     run_actions([{"op": "disconnect", "who": A}])
